@@ -1,6 +1,7 @@
 package props
 
 import (
+	"bytes"
 	"encoding/json"
 	"fmt"
 	"math"
@@ -325,11 +326,13 @@ func (p *c20prop) runTwin(c *core.Case, cc *C20Case, st *core.Stats) []core.Viol
 	if err != nil {
 		return fail("roundtrip-error", "ParseJSON(reported config %s): %v", b, err)
 	}
+	var used []lz.Parser
 	run := func(pc lz.ParserConfig) ([]string, error) {
 		q, err := pc.NewParser()
 		if err != nil {
 			return nil, err
 		}
+		used = append(used, q)
 		var log []string
 		data := cc.Data
 		for len(data) > 0 || true {
@@ -366,6 +369,43 @@ func (p *c20prop) runTwin(c *core.Case, cc *C20Case, st *core.Stats) []core.Viol
 		return fail("twin-differs", "parser from the JSON round trip of the reported configuration behaves differently: %s", why)
 	}
 	st.Inc("twins_compared")
+	// the reported configuration is that of the creation for the whole life
+	// of the parser: after parsing, shrinking, skipping, refilling through a
+	// reader and resetting it must still equal the defaults-completed one
+	for i, q := range used {
+		for step := 0; step < 2; step++ {
+			rep := q.ParserConfig()
+			if reflect.TypeOf(rep) != reflect.TypeOf(eff) || !reflect.DeepEqual(rep, eff) {
+				return fail("reported-config-after-use", "parser %d after use (step %d): ParserConfig() = %+v, the defaults-completed configuration is %+v", i, step, rep, eff)
+			}
+			if bc := q.BufferConfig(); bc != eff.BufConfig() {
+				return fail("reported-bufconfig-after-use", "parser %d after use (step %d): BufferConfig() = %+v, want %+v", i, step, bc, eff.BufConfig())
+			}
+			if step == 1 {
+				break
+			}
+			// second life: Reset, ReadFrom, Parse(nil), NoTrailingLiterals,
+			// Shrink, wrapped parsing
+			var blk lz.Block
+			q.Reset(nil)
+			q.ReadFrom(bytes.NewReader(cc.Data))
+			q.Parse(nil, 0)
+			q.Parse(&blk, lz.NoTrailingLiterals)
+			q.Shrink()
+			wp := lz.Wrap(bytes.NewReader(cc.Data), q)
+			for j := 0; j < 1000; j++ {
+				if _, err := wp.Parse(&blk, 0); err != nil {
+					break
+				}
+			}
+			if bc := q.BufferConfig(); len(cc.Data) <= bc.BufferSize {
+				q.Reset(append([]byte(nil), cc.Data...))
+				q.Parse(&blk, 0)
+				q.Shrink()
+			}
+		}
+	}
+	st.Inc("reported_configs_checked_after_use")
 	st.NonTrivial(c)
 	st.Sample(c, 1)
 	return nil
@@ -375,5 +415,5 @@ func init() {
 	core.Register(&c20prop{base{id: "C20", level: "exploration",
 		rule:        "fields: every field of all 7 configuration types is filled with 0, small, negative, large, +-int64 extremes and random 64-bit values (Cost from valid UTF-8 strings incl. HTML-escaped and non-ASCII characters), after another random configuration was decoded (state leaks between decodes): ParseJSON(Marshal(&cfg)) must return the same type with DeepEqual fields, every other type must reject the document, Clone must be equal and independent (mutated through SetBufConfig), SetDefaults idempotent and only replacing zero fields; docs: hand-written hostile documents and valid documents whose Type was changed to an unknown one or removed must be rejected by ParseJSON and by all 7 typed Unmarshal; twin: for valid small configurations with some zero fields the parser's ParserConfig()/BufferConfig() must equal the harness' Clone+SetDefaults copy and parsers created from the reported configuration (directly and through JSON) must emit identical blocks; non-trivial = every completed case; distinct = distinct concrete case",
 		assumptions: []string{"JSON cannot carry invalid UTF-8: Cost strings are valid UTF-8", "the harness builds library configuration values by plain field assignment, independent of the library's JSON code"},
-		mandatory:   []string{"roundtrips", "cross_type_rejections", "clones", "setdefaults_checked", "hostile_documents", "typed_unmarshal_rejections", "reported_configs_checked", "twins_compared"}}})
+		mandatory:   []string{"roundtrips", "cross_type_rejections", "clones", "setdefaults_checked", "hostile_documents", "typed_unmarshal_rejections", "reported_configs_checked", "twins_compared", "reported_configs_checked_after_use"}}})
 }
